@@ -5,7 +5,7 @@
 seed=$(readlink -f "$1"); name=$(basename "$seed")
 wt=/tmp/cs-$name; export CARGO_TARGET_DIR=/tmp/cs-target-$((RANDOM % 2)); export CARGO_NET_OFFLINE=true
 exec 9>"$CARGO_TARGET_DIR.lock"; flock 9
-git -C /repo worktree remove --force "$wt" 2>/dev/null; git -C /repo worktree add -q --detach "$wt" HEAD || exit 2
+git -C /repo worktree remove --force "$wt" 2>/dev/null; git -C /repo worktree add -q --detach "$wt" ${REPO_REV:-HEAD} || exit 2
 cd "$wt" || exit 2
 res() { python3 - "$seed/confirm.json" "$@" <<'PY'
 import json,sys
@@ -18,7 +18,7 @@ for i in range(0,len(kv),2):
 json.dump(j,open(p,'w'),indent=1)
 PY
 }
-rm -f "$seed/confirm.json"; res seed "$name" repo_head "$(git -C /repo rev-parse --short HEAD)"
+rm -f "$seed/confirm.json"; res seed "$name" repo_head "$(git -C /repo rev-parse --short ${REPO_REV:-HEAD})"
 run_demo() { # $1 = label (with|without)
   local rc=99 kind=none
   export COPIA="$CARGO_TARGET_DIR/debug/copia" COPIA_BIN="$CARGO_TARGET_DIR/debug/copia"
